@@ -115,7 +115,10 @@ def check_output(ds_rows, desc):
     if len(ds_rows) != len(resources):
         problems.append('%d row streams for %d resource descriptors' % (len(ds_rows), len(resources)))
     for r, rows in zip(resources, ds_rows):
-        fdesc = r['schema']['fields']
+        fdesc = (r.get('schema') or {}).get('fields')
+        if not isinstance(fdesc, list):                     # total: a descriptor without a field list is itself a finding
+            problems.append('resource %s has no field list in its descriptor' % r.get('name'))
+            continue
         fnames = [f['name'] for f in fdesc]
         if len(set(fnames)) != len(fnames):
             problems.append('field names of %s are not unique: %s' % (r['name'], fnames))
